@@ -225,7 +225,11 @@ def token(w, op, u, x, r, path):
     return "other-value:" + type(r).__name__
 
 
-def direct(w, c, op, u, x):
+# attribute names for the non-dunder getattr cell: a dunder starts AND ends with two underscores
+ATTR_NAMES = {"direct": "some_attribute", "direct-lead": "__lead", "direct-trail": "trail__", "direct-under": "_private"}
+
+
+def direct(w, c, op, u, x, variant="direct"):
     p = op.split(":")
     k = p[0]
     if k == "str":
@@ -263,7 +267,7 @@ def direct(w, c, op, u, x):
         from jinja2.runtime import new_context
         return new_context(w.env[c], None, {}).call(u)
     if k == "getattr":
-        return u.some_attribute
+        return getattr(u, ATTR_NAMES.get(variant, "some_attribute"))
     if k == "getdunder":
         return u.__no_such_dunder__
     if k == "getitem":
@@ -357,8 +361,8 @@ def observe(w, c, origin, op, path, msgs):
     x = w.other(c, o) if o else None
     w.logger.events.clear()
     try:
-        if path == "direct":
-            r = direct(w, c, op, u, x)
+        if path.startswith("direct"):
+            r = direct(w, c, op, u, x, path)
         else:
             kind, src = template_form(op, origin)
             v = w.vars(c)
@@ -520,7 +524,7 @@ def judge(ctx, w, results):
         lw = log_oracle(c, op, real)
         ctx.case(sample=dict(case, observed=real, model=model, documented=spec) if (hash(str(cell)) % 977 == 0) else None,
                  key=(c, origin, op, path))
-        ctx.count(("documented" if spec != "unspecified" else "unspecified") + "/" + path)
+        ctx.count(("documented" if spec != "unspecified" else "unspecified") + "/" + path.split("-")[0])
         if why:
             ctx.reject(dict(case, observed=real, detail=detail, documented=spec), why,
                        f"C21:{c}:{op}:{spec}")
@@ -594,6 +598,8 @@ def run(ctx):
         for origin in ORIGINS:
             for op in all_ops():
                 cells.append((c, origin, op, "direct"))
+                if op == "getattr":
+                    cells += [(c, origin, op, v) for v in ("direct-lead", "direct-trail", "direct-under")]
                 if template_form(op, origin):
                     cells.append((c, origin, op, "template"))
     results, msgs = run_cells(ctx, w, table_lines, cells)
